@@ -6,6 +6,10 @@ LEVEL = "proof"
 _T = ["pageRound_spec", "layout_spec", "accepted_never_wraps", "old_guard_insufficient", "recover_base", "malloc_enomem_iff", "allocarray_spec", "protections", "free_calls"]
 THEOREMS = vcore.theorems_in("SodiumModel/Properties/C17.lean", _T, "Sodium.C17")
 IMPORTS = ["SodiumModel.Properties.C17"] if THEOREMS else ["SodiumModel.Model.Alloc"]
+# byte-and-page-level model of utils.c (contents, protections, faulting accesses): theorems over Model/AllocMem.lean; NOT yet routed through the driver — it shares the
+# layout lemmas (Proofs/Alloc) with the tied Model/Alloc.lean, whose call logs the correspondence compares
+IMPORTS = IMPORTS + ["SodiumModel.Properties.C17Mem"]
+THEOREMS = THEOREMS + vcore.theorems_in("SodiumModel/Properties/C17Mem.lean", ["malloc_spec", "live_access", "mprotect_spec", "history_invariant", "free_spec", "free_null", "allocarray_spec", "memzero_spec", "guard_form"], "Sodium.C17Mem")
 RULE = ("layout: every size 0..3 pages+1 (logged mmap/mprotect/mlock/munmap arguments relative to the mapping base, user pointer offset, 0xdb fill, "
         "canary constancy, free's calls) and sizes near SIZE_MAX; allocarray at overflow boundaries; fork probes: first byte past the end (must fault), "
         "each of the 16 canary bytes altered then free (must be killed), last in-bounds byte, all protection histories of length <= 4 (120) followed by a "
